@@ -105,4 +105,29 @@ PROPS = {
         'level_note': 'Schedules are sampled, not enumerated; a shared cache that does not collide on the sampled inputs would pass.',
         'design_ref': '5 / C19',
     },
+    'C04': {
+        'title': 'conditional compilation',
+        'rule': 'one case = one G-PP program (nesting <= 5, `elsif chains, `define/`undef/`undefineall between and inside branches, dead branches with undefined usages, '
+                'strings/comments containing `endif text, predefined and SV_COV names, random initial define table, line-per-directive or inline layout); '
+                'the reference semantics is evaluated on the abstract program; non-trivial = contains a conditional or usage and was compared in full (tokens, dead payload, table, error); distinct by hash of (source, initial table)',
+        'evaluations_key': 'programs',
+        'floors': {'quick': {'programs': 150000, 'conditionals': 500000, 'elsif_branches': 500000, 'dead_payload_tokens': 500000, 'agree_with_reference': 100000, 'expected_errors': 5000},
+                   'thorough': {'programs': 3500000, 'conditionals': 12000000}},
+        'technique': 'runtime monitor with executable reference model: unique payload tokens make surviving text attributable; the reference evaluates branch selection and define-table evolution on the abstract program and is compared token-for-token with the real preprocessor output',
+        'level_text': 'Thousands of generated conditional-compilation programs are run through the real preprocessor; a ~150-line reference semantics evaluated on the abstract program predicts the token sequence, the dead payload, the final table and the error, and a monitor compares them.',
+        'level_note': 'Trusts the reference semantics (gen_pp.rs) and lexer.rs (used on outputs only). K2 is attributed only when the reference with the K2 switch reproduces the observation exactly.',
+        'design_ref': '5 / C04',
+    },
+    'C05': {
+        'title': 'macro expansion',
+        'rule': 'one case = one G-PP program in the macro profile (0-3 formals with/without defaults, actuals with nested brackets/strings/commas/usages, bodies with continuation lines, '
+                'pasting, stringification, plain strings naming formals, nested usages, redefinition between uses, the three misuse shapes); non-trivial = contains a usage and was compared in full; distinct by hash of source',
+        'evaluations_key': 'programs',
+        'floors': {'quick': {'programs': 150000, 'usages': 40000, 'function_like_defines': 40000, 'agree_with_reference': 100000, 'expected_errors': 5000},
+                   'thorough': {'programs': 3500000, 'usages': 900000}},
+        'technique': 'runtime monitor with executable reference model: reference expander on abstract macro bodies (substitution, defaults, paste, stringify, nested usage with the table at the point of use) compared token-wise with the real output; error variant and payload compared exactly',
+        'level_text': 'Generated define/usage programs are expanded both by the real preprocessor and by a reference expander that works on the abstract macro bodies; outputs are compared token-wise and errors by variant and payload.',
+        'level_note': 'White-space amounts are not compared (token-level); shapes the statement is silent about (more actuals than formals, `define inside bodies) are not generated.',
+        'design_ref': '5 / C05',
+    },
 }
